@@ -3,6 +3,7 @@ pub mod c01;
 pub mod c02;
 pub mod c03;
 pub mod c04;
+pub mod c05;
 pub mod c06;
 pub mod c07;
 pub mod c08;
@@ -22,5 +23,5 @@ pub mod c20;
 use crate::runner::PropSpec;
 
 pub fn registry() -> Vec<PropSpec> {
-    vec![c01::SPEC, c02::SPEC, c03::SPEC, c04::SPEC, c06::SPEC, c07::SPEC, c08::SPEC, c09::SPEC, c10::SPEC, c11::SPEC, c12::SPEC, c13::SPEC, c14::SPEC, c15::SPEC, c16::SPEC, c18::SPEC, c19::SPEC, c20::SPEC]
+    vec![c01::SPEC, c02::SPEC, c03::SPEC, c04::SPEC, c05::SPEC, c06::SPEC, c07::SPEC, c08::SPEC, c09::SPEC, c10::SPEC, c11::SPEC, c12::SPEC, c13::SPEC, c14::SPEC, c15::SPEC, c16::SPEC, c18::SPEC, c19::SPEC, c20::SPEC]
 }
